@@ -38,6 +38,9 @@ pub struct VisitorScript {
     pub quit_at: Option<usize>,
     /// Answer Skip for directories with these relative paths.
     pub skip: BTreeSet<String>,
+    /// Answer Skip (documented as having no effect on non-directories) when
+    /// an error is reported instead of an entry.
+    pub skip_on_error: bool,
 }
 
 #[derive(Clone, Debug, PartialEq, Eq, PartialOrd, Ord)]
@@ -173,6 +176,9 @@ pub fn run_parallel(base: &Path, case: &Case) -> RunResult {
                     Err(err) => {
                         let s = classify_err(&basep, &err);
                         sh.seen.push(s);
+                        if script.skip_on_error {
+                            state = WalkState::Skip;
+                        }
                     }
                 }
                 if script.quit_at == Some(idx) {
@@ -282,7 +288,18 @@ fn gen_case_c07(sub: u64, thorough: bool) -> Case {
         strategy: gen_strategy(&mut rng),
         replay: vec![],
         strict: false,
-        readdir_fault: if rng.chance(1, 8) { (1, 6) } else { (0, 1) },
+        readdir_fault: (0, 1),
+    }
+    .with_faults(&mut rng)
+}
+
+impl Case {
+    fn with_faults(mut self, rng: &mut Rng) -> Case {
+        if rng.chance(1, 8) {
+            self.readdir_fault = (1, 6);
+            self.visitor.skip_on_error = rng.chance(1, 2);
+        }
+        self
     }
 }
 
@@ -533,7 +550,7 @@ fn case_to_json(case: &Case) -> Value {
         "engine": "walksim",
         "tree": case.tree.to_json(),
         "cfg": case.cfg.to_json(),
-        "visitor": { "quit_at": case.visitor.quit_at, "skip": case.visitor.skip.iter().collect::<Vec<_>>() },
+        "visitor": { "quit_at": case.visitor.quit_at, "skip": case.visitor.skip.iter().collect::<Vec<_>>(), "skip_on_error": case.visitor.skip_on_error },
         "sched": {
             "seed": case.sched_seed,
             "strategy": case.strategy.name(),
@@ -551,6 +568,7 @@ fn case_from_json(v: &Value) -> Case {
         visitor: VisitorScript {
             quit_at: v["visitor"]["quit_at"].as_u64().map(|x| x as usize),
             skip: v["visitor"]["skip"].as_array().map(|a| a.iter().filter_map(|s| s.as_str().map(String::from)).collect()).unwrap_or_default(),
+            skip_on_error: v["visitor"]["skip_on_error"].as_bool().unwrap_or(false),
         },
         sched_seed: v["sched"]["seed"].as_u64().unwrap_or(1),
         strategy: Strategy::parse(v["sched"]["strategy"].as_str().unwrap_or("default")).unwrap_or(Strategy::Default),
